@@ -105,7 +105,9 @@ def cfgs(tier):
     cs = [l3.Cfg("base"),
           l3.Cfg("quote", num=True, bool=True, replacement='q"uo\\te é漢 <x>'),
           l3.Cfg("empty", replacement="", num=True),
-          l3.Cfg("esc", replacement="C:\\temp\\new \\u2588 a\\\\b", ns=True, bool=True)]
+          # backslash sequences that look like escapes, and characters JSON can only carry as \\uXXXX escapes (C0 controls, DEL, a non-printable
+          # supplementary-plane code point)
+          l3.Cfg("esc", replacement="C:\\temp\\new \\u2588 a\\\\b \x01\x07\x0b\x7f\U000e0001", ns=True, bool=True)]
     if tier == "thorough":
         cs += [l3.Cfg("nl", replacement="tab\there", bool=True), l3.Cfg("long", replacement="R" * 300), l3.Cfg("ns", ns=True, ips=True, replacement="Ω")]
     return cs
@@ -144,6 +146,8 @@ def run(tier):
         states += t.distinct
         trans += t.generated
     rp.finish()
+    for st in rp.stray_samples[:3]:
+        v.violation("an emitted line is not JSON (a replaced leaf is not a member of its class): %s" % st["why"], st)
     v.cov.update({"states": states, "transitions": trans, "traces_validated_against_impl": v.cov["evaluations"], "exhaustive": True,
                   "abstract_cases": rp.records, "flag_sets": [c.desc() for c in cs],
                   "grammar_edges_total": len(all_edges), "grammar_edges_exercised": len(all_edges & cov.seen),
